@@ -17,7 +17,7 @@
 //!              re-checks every entry against the crate and prints `bad-ops` on a mismatch; `~` = empty string)
 //! out: `t <n> <ev>* out <outcome>`   ev = E k | M k | X k | R <method> <url> <hdrs> <body>
 //!      outcome = ok <status> <body> | raw <status> <body> | err http <code> <body> | err io <msg> | err timeout
-//!                | err url | err other | none | multi
+//!                | err url | err other | none | multi          (whole line `panic` / `crash` / `bad-case` / `bad-ops` otherwise)
 use async_trait::async_trait;
 use crux_core::{compose::Compose, macros::Effect, Command, Core};
 use crux_http::{
@@ -494,11 +494,12 @@ fn run_case(line: &str) -> Option<String> {
     Some(s)
 }
 
-fn run() {
+/// one observation line per case line, in this process
+fn run_worker() {
     std::panic::set_hook(Box::new(|_| {}));
     let stdin = std::io::stdin();
     let out = std::io::stdout();
-    let mut out = std::io::BufWriter::new(out.lock());
+    let mut out = out.lock();
     for line in stdin.lock().lines() {
         let line = line.unwrap();
         let r = catch_unwind(AssertUnwindSafe(|| run_case(&line)));
@@ -508,7 +509,45 @@ fn run() {
             Err(_) => "panic".into(),
         };
         writeln!(out, "{s}").unwrap();
+        out.flush().unwrap();
     }
+}
+
+/// `mw run`: supervises a worker process, so that a case on which the code under test overflows the stack (unbounded
+/// recursion through `Client::send` cannot be caught in-process) yields the line `crash` instead of ending the run.
+fn run() {
+    use std::io::BufReader;
+    use std::process::{Child, ChildStdin, ChildStdout, Command as Proc, Stdio};
+    fn spawn() -> (Child, ChildStdin, BufReader<ChildStdout>) {
+        let mut c = Proc::new(std::env::current_exe().unwrap())
+            .arg("run-worker")
+            .stdin(Stdio::piped())
+            .stdout(Stdio::piped())
+            .stderr(Stdio::null())
+            .spawn()
+            .expect("spawn worker");
+        let i = c.stdin.take().unwrap();
+        let o = BufReader::new(c.stdout.take().unwrap());
+        (c, i, o)
+    }
+    let stdin = std::io::stdin();
+    let out = std::io::stdout();
+    let mut out = std::io::BufWriter::new(out.lock());
+    let (mut child, mut cin, mut cout) = spawn();
+    for line in stdin.lock().lines() {
+        let line = line.unwrap();
+        let mut resp = String::new();
+        let sent = writeln!(cin, "{line}").and_then(|_| cin.flush()).is_ok();
+        if !sent || cout.read_line(&mut resp).unwrap_or(0) == 0 || !resp.ends_with('\n') {
+            let _ = child.kill();
+            let _ = child.wait();
+            (child, cin, cout) = spawn();
+            resp = "crash\n".into();
+        }
+        out.write_all(resp.as_bytes()).unwrap();
+    }
+    drop(cin);
+    let _ = child.wait();
 }
 
 // ---------------------------------------------------------------------------------------------------
@@ -829,6 +868,7 @@ fn main() {
     match args.get(1).map(String::as_str) {
         Some("gen") => gen(args[2].parse().unwrap(), args[3].parse().unwrap()),
         Some("run") => run(),
+        Some("run-worker") => run_worker(),
         Some("fill") => fill(),
         _ => {
             eprintln!("usage: mw gen <seed> <n> | run | fill");
